@@ -83,8 +83,8 @@ def r19_1(ctx: Ctx, rep: Report) -> None:
                 )
 
 
-def r19_2(ctx: Ctx, rep: Report) -> None:  # noqa: C901
-    rep.rule("R19.2")
+def r19_2(ctx: Ctx, rep: Report, rid: str = "R19.2") -> None:  # noqa: C901
+    rep.rule(rid)
     up = ctx.func("Ace.ungroup_ports")
     cfg = ctx.cfg(up)
     loops = [n for n in cfg.live if n.kind == "for"]
@@ -196,8 +196,8 @@ def r19_2(ctx: Ctx, rep: Report) -> None:  # noqa: C901
         rep.ok("Ace.ungroup_ports: pass-through", f"{ok_pass} else branch(es) append exactly one copy", where=where(up))
 
 
-def r19_3(ctx: Ctx, rep: Report) -> None:
-    rep.rule("R19.3")
+def r19_3(ctx: Ctx, rep: Report, rid: str = "R19.3") -> None:
+    rep.rule(rid)
     up = ctx.func("Ace.ungroup_ports")
     rep.instance()
     ok = False
